@@ -25,7 +25,8 @@ Near ==
     { Num("0", <<>>), Num("-0", <<>>), Num("1", <<>>), Num("1", <<T_("m")>>), Num("1", <<T_("s")>>), Num("2", <<T_("m")>>), Num("-1", <<>>),
       Num("1", <<T_("kW")>>), Num("0", <<T_("m")>>), Num("-0", <<T_("m")>>), Num("1e21", <<>>),
       Ref(T_("r"), <<>>), Ref(T_("r"), <<T_("dis")>>), Ref(T_("r"), <<T_("other")>>), Ref(T_("s"), <<>>),
-      Str(T_("x")), Uri(T_("x")), Symbol(T_("x")), XStr(T_("X"), T_("x")), XStr(T_("Y"), T_("x")), XStr(T_("X"), T_("y")), Str(<<>>), Uri(<<>>),
+      Str(T_("x")), Uri(T_("x")), Symbol(T_("x")), XStr(T_("X"), T_("x")), XStr(T_("Y"), T_("x")), XStr(T_("X"), T_("y")), XStr(T_("x"), T_("x")), XStr(T_("Bin"), T_("x")), XStr(T_("bin"), T_("x")),
+      Str(T_("X")), Symbol(T_("X")), Uri(T_("X")), Str(<<>>), Uri(<<>>),
       Str(T_("r")), Null, Marker, Remove, NA, Bool(TRUE), Bool(FALSE),
       D(<<<<a, One>>, <<b, One>>>>), D(<<<<a, N("2", <<>>)>>, <<b, One>>>>), D(<<<<a, One>>, <<T_("c"), N("0", <<>>)>>>>),
       D(<<<<a, N("2", <<>>)>>, <<T_("c"), N("0", <<>>)>>>>), D(<<>>), D(<<<<a, One>>>>), D(<<<<b, One>>>>), D(<<<<a, Num("0", <<>>)>>>>), D(<<<<a, Num("-0", <<>>)>>>>),
